@@ -354,7 +354,12 @@ PROPS = {
                 "(empty LRU = restarted node), through the storing instance after eviction, and after the leveldb directory was closed and "
                 "re-opened; the same for generated storage.Point values (0-300 pillars, boundary counters and heights, both point types); "
                 "at the end every election of the stream is repeated while three goroutines draw from and re-seed the process-wide "
-                "math/rand generator and must give the list computed when nothing else runs. ticker stream: ToTick/ToTime at tick "
+                "math/rand generator and must give the list computed when nothing else runs; cs-* lines (every k-th schedule / point, "
+                "a few hundred per run): the real Marshal bytes of the schedule against the model's marshalED (byte for byte), the real "
+                "bytes of schedules and points decoded by the model (unmarshalED / unmarshalPoint) against what the real Unmarshal reads, "
+                "point bytes re-encoded in the order read, CreatePointKey / CreateElectionResultKey against the model's keys, and the "
+                "store / get (hit, second instance = restart, after eviction) / delete sequence on real storage.DB instances with "
+                "two-entry LRUs replayed on the model's Store. ticker stream: ToTick/ToTime at tick "
                 "boundaries +-1 s, before the start, beyond the 292-year int64 range, generateProducers/genProofTime for live and "
                 "random (BlockTime,NodeCount). mverify stream: n rounds on a real mock chain (slots and whole ticks skipped, "
                 "delegations and balances changing); per round the valid next momentum and ~50 variants (every single-field "
@@ -379,12 +384,17 @@ PROPS = {
                    "before_time_subsecond_hangs); ToTick is modelled for whole-second instants only (Duration.Seconds() is a "
                    "float; the last nanosecond of a tick rounds up for chains older than 194 days - counted by the ticker "
                    "stream, not judged); the ticker theorems hold within 292 years of genesis (int64 ns Duration; negative "
-                   "witness ticker_wraps_after_292_years); ComputePillarDelegations (weights from balances) is taken from the real code; persistence of the "
-                   "consensus store (ElectionData / Point through protobuf and leveldb) and the restart of a node on its consensus database are "
-                   "model-free monitors (election and mverify streams), not theorems - the model's cache lemma cached_election_eq_recomputed takes "
-                   "'every cached entry is what was computed for its key' as its hypothesis, which is exactly what those monitors test for entries "
-                   "read back from disk; a flushed LRU is exercised at the storage layer (two-entry LRU) and by the restart, not by filling the "
-                   "2016-entry LRU of a node; independence from the process-wide math/rand generator is the regenerated fact "
+                   "witness ticker_wraps_after_292_years); ComputePillarDelegations (weights from balances) is taken from the real code; the model's "
+                   "cache lemma cached_election_eq_recomputed takes 'every cached entry is what was computed for its key' as its hypothesis; for "
+                   "the persistent cache that is Props.C05Store (codec round trips, cache_transparent, restart_same_answer, store_get) under the "
+                   "assumption Store.Coherent = no caller mutates an object the LRU holds (the real LRU hands out pointers) - preserved by "
+                   "every model operation and checked on the real objects by the cs-db / cs-pt-dec lines -, for ASCII names (proto3 UTF-8 "
+                   "validation of names is outside the model) and over an ideal key-value map (leveldb itself: C08; the leveldb directory "
+                   "re-opened and the restart of a whole node on its consensus database remain model-free monitors of the election and "
+                   "mverify streams); the byte string of a stored Point is not canonical (Marshal ranges over a map; "
+                   "point_bytes_not_canonical) - values are compared, and marshal_bytes_only_stored pins that nothing but db.Put receives "
+                   "those bytes; a flushed LRU is exercised at the storage layer (two-entry LRU) and by the restart, not by filling the "
+                   "2016-entry LRU of a node (cache_size pins the expression and its value); independence from the process-wide math/rand generator is the regenerated fact "
                    "election_uses_no_process_wide_randomness (AST: no reference to a package-level math/rand, math/rand/v2 or crypto/rand function "
                    "in vm, verifier, chain, consensus, common/db, common/types) plus the two noise monitors, which depend on goroutine "
                    "interleaving; schedule equality after a reorganisation across nodes is left to the sync stream (C06/C16)",
@@ -636,14 +646,21 @@ PROPS = {
                 "period to period, kept in a real storage.DB (LRU over a key-value store; the newest one sometimes in progress), "
                 "aggregated into the epoch point with the real Point.LeftAppend 2-4 times in a row and once more by a restarted "
                 "DB, every fold recomputed by the Lean function Points.compound, cached period points compared with what was "
-                "stored after the folds; distinct = distinct (op,result) lines",
+                "stored after the folds; cs-pt-* lines (every second fold case): the bytes the real StorePointByHeight wrote for each "
+                "period point are decoded by the Lean store model (Props.C05Store) and must give the stored value (cs-pt-enc, incl. "
+                "re-encoding in the order read) AND the object the LRU hands out after the real LeftAppend folds ran over it (cs-pt-dec); "
+                "distinct = distinct (op,result) lines",
         "partial": "the amounts credited per epoch enter the cursor/deposit model as observed inputs (their arithmetic is the "
                    "rewards-pure part, re-checked on the real chains' inputs for stake, sentinel and pillar epochs), so 'the "
                    "total credited per epoch is within the emission' is a theorem about the pure functions plus a per-epoch "
                    "comparison on real chains, not one end-to-end theorem; the premises of pillar_epoch_bound are monitored on "
                    "every real epoch's statistics, not proved here; 'identical on all nodes' "
                    "(EpochStats / PillarDelegationsByEpoch read from each node's own consensus cache) is a theorem only for the "
-                   "aggregation step (Points.compound is a function of the period points; it counts every momentum once); that "
+                   "aggregation step (Points.compound is a function of the period points; it counts every momentum once) and for "
+                   "the persistence of a point (Props.C05Store: what StorePointByHeight wrote is what the storing or a restarted instance "
+                   "reads back, weight-0 pillars = empty weight bytes included; the byte string of a point is not canonical - Marshal ranges "
+                   "over a map -, its decoded value is; assumption Store.Coherent: no caller mutates an object the LRU holds, checked on the "
+                   "real cached period points after the folds by the cs-pt-dec lines); that "
                    "the node's cached objects behave like those values is established by the consensus-statistics audit "
                    "(warm/warm, warm/cold, statistics vs chain) and the follower comparison; premises produced<=expected, sum of weights <= total weight, sum "
                    "expected <= MomentumsPerEpoch are consensus facts (C05) taken as hypotheses; exactly-once is false for the "
